@@ -1,8 +1,8 @@
 package checks
 
 import (
-	"sync"
 	"fmt"
+	"sync"
 
 	"github.com/ja7ad/otp"
 	"github.com/ja7ad/otp/verifharness/ev"
@@ -80,7 +80,7 @@ func hotpValidate(c c03Case, key []byte, window []string, pairMode bool) (obs, b
 			return obs, "ambiguous verdict " + ps
 		}
 		if err != nil {
-			if l := leaks(err.Error(), c.Secret, key, window); l != "" {
+			if l := leaks(errText(err), c.Secret, key, window); l != "" {
 				return obs, "error text discloses " + l
 			}
 		}
